@@ -52,6 +52,10 @@ pub struct IsoCase {
     pub kind: Kind,
     pub mutators: Vec<u16>,
     pub chooser: Chooser,
+    /// if non-empty: the subshell command is itself placed inside an outer `( ... )` that first
+    /// runs these mutators; isolation and the entry view are then also checked one level down
+    #[serde(default)]
+    pub outer: Vec<u16>,
 }
 
 const PRELUDE: &str = "v1=orig\nv2=orig2\nexport v2\nf1() { echo f1; }\nalias a1='echo a1'\nset -- x y\ntrap 'echo usr1' USR1\ntrap '' USR2\nexec 3>/tmp/f0\numask 027\n";
@@ -75,7 +79,16 @@ fn script(c: &IsoCase) -> String {
         Kind::NestedParen => format!("( : ; (\n{body}) )"),
         Kind::ParenInSubst => format!("x=$( (\n{body}) )"),
     };
-    format!("{PRELUDE}snap A\n{cmd}\nsnap B\n")
+    if c.outer.is_empty() {
+        format!("{PRELUDE}snap A\n{cmd}\nsnap B\n")
+    } else {
+        let mut outer = String::new();
+        for m in &c.outer {
+            outer.push_str(MUTATORS[*m as usize % MUTATORS.len()]);
+            outer.push('\n');
+        }
+        format!("{PRELUDE}snap A\n(\n{outer}snap P\n{cmd}\nsnap Q\n)\nsnap B\n")
+    }
 }
 
 fn diff_snap(a: &Snap, b: &Snap, ignore_vars: &[&str]) -> Option<String> {
@@ -174,15 +187,39 @@ fn check_iso(c: &IsoCase) -> Outcome {
     if nochld(pa) != nochld(pb) {
         return Outcome::fail(ctx(format!("parent signal dispositions changed: {:?} -> {:?}", pa.dispositions, pb.dispositions)));
     }
-    // (2) child view at entry
+    // (2) child view at entry, relative to the process that started the subshell: the main shell,
+    // or the outer subshell (snapshots P before / Q after) when nested
+    let (refsnap, refproc): (&Snap, &ProcInfo) = if c.outer.is_empty() {
+        (a, pa)
+    } else {
+        let (Some(ip), Some(iq)) = (find("P"), find("Q")) else {
+            // the outer mutators ended the outer subshell early (errexit, assignment to a read-only
+            // variable, ...): only the isolation of the main shell could be judged
+            return Outcome::pass(false).class("outer-subshell-ended-early");
+        };
+        let (p, q) = (&r.snaps[ip], &r.snaps[iq]);
+        let pp = r.proc_snaps.iter().find(|(t, x)| t == "P" && x.pid == p.pid).map(|x| &x.1);
+        let pq = r.proc_snaps.iter().find(|(t, x)| t == "Q" && x.pid == q.pid).map(|x| &x.1);
+        let (Some(pp), Some(pq)) = (pp, pq) else { return Outcome::fail(ctx("process snapshots P/Q missing".into())) };
+        if p.pid != q.pid || p.pid == a.pid {
+            return Outcome::fail(ctx("outer subshell snapshots taken in unexpected processes".into()));
+        }
+        if let Some(d) = diff_snap(p, q, ignore) {
+            return Outcome::fail(ctx(format!("state of the OUTER subshell changed across the inner subshell: {d}")));
+        }
+        if let Some(d) = diff_proc(pp, pq, 0, 1 << 20) {
+            return Outcome::fail(ctx(format!("process state of the OUTER subshell changed across the inner subshell: {d}")));
+        }
+        (p, pp)
+    };
     let Some(ic0) = find("C0") else {
         return Outcome::fail(ctx("the subshell body did not start".into()));
     };
     let c0 = &r.snaps[ic0];
-    if c0.pid == a.pid {
-        return Outcome::fail(ctx("the subshell body ran in the parent process".into()));
+    if c0.pid == refsnap.pid {
+        return Outcome::fail(ctx("the subshell body ran in the process that started it".into()));
     }
-    let mut expect = a.clone();
+    let mut expect = refsnap.clone();
     for v in expect.traps.values_mut() {
         if !v.is_empty() && v != "-" {
             *v = "-".to_string();
@@ -199,20 +236,31 @@ fn check_iso(c: &IsoCase) -> Outcome {
         c0cmp.traps.retain(|k, _| !int_quit(k));
     }
     if let Some(d) = diff_snap(&expect, &c0cmp, &[]) {
-        return Outcome::fail(ctx(format!("child view at subshell entry differs from the parent's state: {d}")));
+        return Outcome::fail(ctx(format!("child view at subshell entry differs from the state of the process that started it: {d}")));
     }
     let pc0 = r.proc_snaps.iter().find(|(t, p)| t == "C0" && p.pid == c0.pid).map(|x| &x.1);
     if let Some(pc0) = pc0 {
         // stdin/stdout may be pipes in the child; compare cwd, umask and descriptors 3-9
-        if let Some(d) = diff_proc(pa, pc0, 3, 9) {
+        if let Some(d) = diff_proc(refproc, pc0, 3, 9) {
             return Outcome::fail(ctx(format!("child process view at entry differs: {d}")));
         }
         let disp = |p: &ProcInfo, n: &str| p.dispositions.iter().find(|d| d.0 == n).map(|d| d.1.clone()).unwrap_or_default();
-        if disp(pc0, "USR1") != "Default" {
-            return Outcome::fail(ctx(format!("USR1 had a command trap in the parent; in the subshell its disposition must be default, found {}", disp(pc0, "USR1"))));
-        }
-        if disp(pc0, "USR2") != "Ignore" {
-            return Outcome::fail(ctx(format!("USR2 was ignored in the parent; in the subshell it must stay ignored, found {}", disp(pc0, "USR2"))));
+        // a signal with a command trap in the starting process must be default in the subshell,
+        // an ignored one must stay ignored
+        for (name, key) in [("USR1", "Signal(Number(124))"), ("USR2", "Signal(Number(125))"), ("TERM", "Signal(Number(15))")] {
+            match refsnap.traps.get(key).map(|s| s.as_str()) {
+                Some("") => {
+                    if disp(pc0, name) != "Ignore" {
+                        return Outcome::fail(ctx(format!("{name} was ignored by the starting process; in the subshell it must stay ignored, found {}", disp(pc0, name))));
+                    }
+                }
+                Some(cmd) if cmd != "-" => {
+                    if disp(pc0, name) != "Default" {
+                        return Outcome::fail(ctx(format!("{name} had a command trap in the starting process; in the subshell its disposition must be default, found {}", disp(pc0, name))));
+                    }
+                }
+                _ => {}
+            }
         }
     }
     // non-triviality: did the mutators change the child's own state?
@@ -232,6 +280,7 @@ fn check_iso(c: &IsoCase) -> Outcome {
             Kind::Async => "async",
         })
         .class_if(changed, "child-state-changed")
+        .class_if(!c.outer.is_empty(), "nested-in-outer-subshell")
         .class_if(!matches!(c.chooser, Chooser::Fifo), "non-fifo-schedule")
 }
 
@@ -249,16 +298,29 @@ pub fn run(ctx: &Ctx, st: &mut Stats) {
         let kind = KINDS[(r % nk) as usize];
         let m = (r / nk) as u16;
         let chooser = if sc == 0 { Chooser::Fifo } else { Chooser::Seeded(seed * 7919 + i) };
-        Some(IsoCase { kind, mutators: vec![m], chooser })
+        Some(IsoCase { kind, mutators: vec![m], chooser, outer: vec![] })
     };
     ISO.run_exhaustive(ctx, st, nm * nk * nsched, &decode);
     st.exhaustive_drivers.retain(|d| d != "isolation"); // schedules are sampled
     st.extra.insert("single_mutator_grid".into(), serde_json::json!({"kinds": nk, "mutators": nm, "schedules_each": nsched}));
+    // nested: every mutator in an outer subshell, then each kind of inner subshell
+    let decode2 = move |i: u64| -> Option<IsoCase> {
+        let kind = KINDS[(i % nk) as usize];
+        let m = (i / nk) as u16;
+        Some(IsoCase { kind, mutators: vec![0], chooser: Chooser::Fifo, outer: vec![m] })
+    };
+    ISO.run_exhaustive(ctx, st, nm * nk, &decode2);
+    st.exhaustive_drivers.retain(|d| d != "isolation");
     // random sequences
     let n = ctx.tier.pick(40_000, 2_000_000);
     ISO.run_random(ctx, st, n, || {
-        (0usize..KINDS.len(), prop::collection::vec(0u16..MUTATORS.len() as u16, 1..6), prop_oneof![1 => Just(None), 3 => any::<u64>().prop_map(Some)])
-            .prop_map(|(k, mutators, seed)| IsoCase { kind: KINDS[k], mutators, chooser: seed.map_or(Chooser::Fifo, Chooser::Seeded) })
+        (
+            0usize..KINDS.len(),
+            prop::collection::vec(0u16..MUTATORS.len() as u16, 1..6),
+            prop_oneof![1 => Just(None), 3 => any::<u64>().prop_map(Some)],
+            prop_oneof![1 => Just(vec![]), 1 => prop::collection::vec(0u16..MUTATORS.len() as u16, 1..4)],
+        )
+            .prop_map(|(k, mutators, seed, outer)| IsoCase { kind: KINDS[k], mutators, chooser: seed.map_or(Chooser::Fifo, Chooser::Seeded), outer })
     });
 }
 
